@@ -20,7 +20,8 @@ from mc.checks.C18 import word_with
 
 WORD_LEN = {'quick': 2, 'thorough': 3}
 WORD_BUDGET = {'quick': 150, 'thorough': 3000}
-NUM_VALUES = [0, 1, 4, -1, 100, 4.0, 2.5, 0.5, 100.0, 1e-05, 12345678.5]
+NUM_VALUES = [0, 1, 4, -1, 100, 4.0, 2.5, 0.5, 100.0, 1e-05, 1.25e-05, 2.5e-07, -7.5e-06, 12345678.5, 1.5e+16,
+              9007199254740993]
 STR_VALUES = ['a', 'a b', ' a', 'a  b', 'é♭\U0001d11e', '<&>"', '4', '4.0']
 
 
